@@ -209,7 +209,7 @@ NoLeak == Chosen => LET c == fc IN \A f \in DOMAIN folds : LET F == folds[f] IN
    /\ SplitsR(c) => \A k \in DOMAIN F.train.rows : RDesc(F.train, c.byR)[k] \notin Range(RDesc(F.test, c.byR))
 
 Strip(ob) == [rows |-> ob.rows, pats |-> ob.pats, ridx |-> ob.ridx, pidx |-> ob.pidx, pinv |-> ob.pinv,
-              meas |-> ob.meas, pcat |-> ob.pcat, vec |-> ob.vec]
+              meas |-> ob.meas, pcat |-> ob.pcat, pdem |-> ob.pdem, vec |-> ob.vec]
 EmitCase == Chosen => PrintT(ToJson([case |-> fc,
                            folds |-> [f \in DOMAIN folds |->
                               LET F == folds[f] IN
